@@ -111,6 +111,7 @@ func (e *Engine) verifyFunc(fn *ssa.Function, fs *FuncSpec) (c *vctx) {
 			env2.vars[n] = results[i]
 		}
 	}
+	env2.applyGhostSets(fs, exitSt)
 	pos := fn.Pos()
 	for _, cl := range fs.Ensures {
 		if len(cl.Props) > 0 && e.curProp != "" && !hasProp(cl.Props, e.curProp) {
@@ -200,10 +201,41 @@ type frameInfo struct {
 // frameTargets evaluates the modifies clauses at function entry.
 func (e *Engine) frameTargets(a *act, fs *FuncSpec, entryEnv *specEnv) *frameInfo {
 	fr := &frameInfo{entry: a.entry, targets: map[string][]Term{}, wild: map[string]bool{}}
+	ghostTarget := func(cl *Clause) bool {
+		x := cl.E
+		if x.Op == "ident" && x.Name == "ghosts" {
+			for name, sf := range e.specFuncs {
+				if sf.Ghost {
+					fr.wild["G_"+name] = true
+				}
+			}
+			return true
+		}
+		if x.Op == "call" && x.Args[0].Op == "ident" && len(x.Args) == 2 {
+			if sf, ok := e.specFuncs[x.Args[0].Name]; ok && sf.Ghost {
+				v, err := entryEnv.eval(x.Args[1])
+				if err != nil {
+					a.specError(cl, err)
+					return true
+				}
+				if k, ok := ghostKey(v); ok {
+					fr.targets["G_"+sf.Name] = append(fr.targets["G_"+sf.Name], k)
+				}
+				return true
+			}
+		}
+		return false
+	}
+	for _, gs := range fs.GhostSets {
+		ghostTarget(gs.Target)
+	}
 	for _, cl := range fs.Modifies {
 		x := cl.E
 		if x.Op == "ident" && x.Name == "anything" {
 			fr.anything = true
+			continue
+		}
+		if ghostTarget(cl) {
 			continue
 		}
 		if x.Op == "call" && x.Args[0].Op == "ident" && x.Args[0].Name == "all" {
@@ -264,8 +296,11 @@ func (e *Engine) frameObligations(a *act, fr *frameInfo, exit *State, reach Term
 	}
 	sort.Strings(names)
 	for _, h := range names {
-		if fr.wild[h] || strings.HasPrefix(h, "G_") {
-			continue // ghost families describe library objects' abstract state, not program memory
+		if fr.wild[h] {
+			continue
+		}
+		if strings.HasPrefix(h, "G_") && !e.moduleGhost(strings.TrimPrefix(h, "G_")) {
+			continue // ghost families of library objects describe their abstract state, not program memory
 		}
 		srt := c.heapSorts[h]
 		h0 := e.heapGet(a.entry, h, srt)
